@@ -8,12 +8,14 @@ CONSTANTS
   MaxEnv = 0
   MaxRequeue = 0
   MaxOffers = 0
+  MaxSplit = 1
   SkipOccupied = TRUE
   CallbackOwnOnly = TRUE
   RemoveCancels = TRUE
   CycleSkipsLocked = TRUE
   OfferSkipsLocked = TRUE
   OfferSkipsOccupied = TRUE
+  StartRechecks = TRUE
 CONSTRAINT AtMostOneNegotiation
 CONSTRAINT SlotsTrackLive
 CONSTRAINT QuietNoTasks
